@@ -66,6 +66,34 @@ def stale_result_rule(ctx, P):
            {"overwritten_by_each_check": a_ok, "reset_before_batch": b_ok, "declared_per_batch": c_ok})
 
 
+def overlay_reads_only(ctx, P):
+    BASE = [".", ["this"], "CCoinsViewBacked::base"]
+    n = 0
+    bad = []
+    for q, lst in P.funcs.items():
+        if not q.startswith("CoinsViewOverlay::"):
+            continue
+        for g in [x.simp() for x in lst]:
+            if g.body is None:
+                continue
+            for s in all_sites(g, P, "all"):
+                e = s.expr
+                if e is None or callee(e) is None:
+                    continue
+                onbase = e[0] in ("mcall", "vcall") and len(e) > 2 and is_expr(e[2]) and contains(BASE, e[2])
+                inherited = e[0] in ("mcall", "vcall", "call") and str(e[1]) in ("CCoinsViewCache::FetchCoinFromBase", "CCoinsViewCache::FetchCoin", "CCoinsViewBacked::GetCoin",
+                                                                                   "CCoinsViewBacked::HaveCoin", "CCoinsViewCache::GetCoin")
+                if onbase:
+                    n += 1
+                    if str(e[1]).rsplit("::", 1)[-1] != "PeekCoin":
+                        bad.append((g.q, s.line, show(e)[:100]))
+                elif inherited and q.rsplit("::", 1)[-1] in ("FetchCoinFromBase", "ProcessInput", "StartFetching"):
+                    bad.append((g.q, s.line, show(e)[:100]))
+    ctx.ob("overlay/base-read-only", "WHO-MAY-CALL", "CoinsViewOverlay touches the view below it only through PeekCoin (never a caching lookup such as GetCoin / the inherited "
+           "CCoinsViewCache::FetchCoinFromBase), so the base view is not mutated while the prefetch workers read it", not bad, None, {"other_accesses": bad} if bad else None)
+    ctx.floor("CoinsViewOverlay accesses to the base view", n + len(bad), 2)
+
+
 def check(ctx):
     P = ctx.program(UNITS)
     # (1) lock discipline of the check queue
@@ -80,6 +108,10 @@ def check(ctx):
 
     # (1b) no stale verdict carried across queue sessions: a worker's private result is refreshed by every executed check
     stale_result_rule(ctx, P)
+
+    # (1c) the overlay never mutates the view below it: while prefetch workers read the base view without a lock, every access the
+    # overlay makes to `base` is the non-caching PeekCoin (a caching GetCoin/FetchCoin would insert into the base cache concurrently)
+    overlay_reads_only(ctx, P)
 
     # (2) overlay hand-over
     pi = ctx.used(P.fn("CoinsViewOverlay::ProcessInput"))
